@@ -13,6 +13,7 @@ import (
 
 // GenesisForProfile selects the genesis configuration of a generator profile.
 func GenesisForProfile(profile string, hs uint64) GenesisCfg {
+	SetPrefixes()
 	cfg := GenesisCfg{}
 	if profile == "reward" {
 		// parameter sets over reward / baseline / APY / halving / adjustment periods and the amount
@@ -46,6 +47,11 @@ func GenesisForProfile(profile string, hs uint64) GenesisCfg {
 		pool := DefaultPool(Denom)
 		pool.TotalReward = sdk.NewInt64Coin(Denom, minted)
 		cfg.Pool = &pool
+	}
+	if profile == "faults" {
+		p := DefaultNodeParams(Denom)
+		p.FishmenInfo = MakeAccount("a1").Addr.String() + "," + MakeAccount("a2").Addr.String()
+		cfg.NodeParams = &p
 	}
 	return cfg
 }
